@@ -90,6 +90,7 @@ let () =
          | "md" ->
            Printf.printf "%d\n" (int_of_n (md (n_of_int (int_of_string toks.(1))) (n_of_int (int_of_string toks.(2))) (n_of_int (int_of_string toks.(3)))))
          | _ -> print_endline "unknown")
-      with e -> print_endline ("error " ^ Printexc.to_string e))
+      with e -> print_endline ("error " ^ Printexc.to_string e));
+      flush stdout
     done
   with End_of_file -> ()
